@@ -145,6 +145,19 @@ def cases(ctx):
             yield ("hist",) + seq
     for n in range(0, 65):
         yield ("pad", n)
+    # inputs for which no standard result exists (key / IV / block of the wrong size, a feeder fed after its final call):
+    # the call must raise, never return bytes
+    for ksize in list(range(0, 34)) + [48, 64]:
+        yield ("badkey", ksize)
+    for m in ("ecb", "cbc", "cfb8", "cfb16", "ofb"):
+        for L in (0, 1, 15, 17, 31, 32, 33):
+            for direction in ("enc", "dec"):
+                yield ("badlen", m, L, direction)
+        for ivlen in (0, 1, 15, 17, 32):
+            if m != "ecb":
+                yield ("badiv", m, ivlen)
+    for m in MODES:
+        yield ("fedafterfinal", m)
 
 
 def iv_of(ctx, i):
@@ -409,6 +422,50 @@ def run_case(ctx, case):
                 o.cls = "history-dependent"
                 return o.viol("adapter|history", "after operations %r the result of op %d differs from a first call on a fresh object" % (seq, op))
         return o
+    if kind == "badkey":
+        ks = case[1]
+        if ks in (16, 24, 32):
+            return Outcome("ok", False)
+        try:
+            r = paes.AES(bytes(range(ks)))
+        except ValueError:
+            return Outcome("raises", True)
+        except Exception as e:
+            return o.viol("reject|key-size|%s" % type(e).__name__, "AES key of %d bytes raises %r instead of ValueError" % (ks, e))
+        return o.viol("reject|key-size|accepted", "AES accepts a key of %d bytes (%r)" % (ks, r))
+    if kind == "badlen":
+        _, m, L, direction = case
+        key = ctx.sym("c16-bad-key")
+        iv = ctx.sym("c16-bad-iv")
+        seg = {"ecb": 16, "cbc": 16, "cfb8": 1, "cfb16": 2, "ofb": 1}[m]
+        if L % seg == 0 and not (m in ("ecb", "cbc") and L != 16) and L != 0:
+            return Outcome("ok", False)
+        if L == 0 and m not in ("ecb", "cbc"):
+            return Outcome("ok", False)          # empty input to a stream-like mode is the empty output
+        obj = mk_mode(m, key, iv)
+        try:
+            r = (obj.encrypt if direction == "enc" else obj.decrypt)(bytes(L))
+        except Exception:
+            return Outcome("raises", True)
+        return o.viol("reject|length|%s" % m, "%s %s of %d bytes (not a valid input size) returned %d bytes instead of raising" % (m, direction, L, len(r)))
+    if kind == "badiv":
+        _, m, ivlen = case
+        try:
+            obj = mk_mode(m, ctx.sym("c16-bad-key"), bytes(ivlen))
+            r = obj.encrypt(bytes(16))
+        except Exception:
+            return Outcome("raises", True)
+        return o.viol("reject|iv|%s" % m, "%s accepts an initialisation vector of %d bytes and returns %d bytes" % (m, ivlen, len(r)))
+    if kind == "fedafterfinal":
+        m = case[1]
+        f = bf.Encrypter(mk_mode(m, ctx.sym("c16-bad-key"), ctx.sym("c16-bad-iv")))
+        f.feed(bytes(20))
+        f.feed()
+        try:
+            r = f.feed(bytes(16))
+        except Exception:
+            return Outcome("raises", True)
+        return o.viol("reject|fed-after-final", "%s feeder accepts data after its final call and returns %d bytes" % (m, len(r)))
     if kind == "pad":
         n = case[1]
         d = bytes([7]) * n
